@@ -16,4 +16,4 @@ echo "== demo without patch (expect ok):"; go test -vet=off -count=1 -run "$rx" 
 git -C $wt checkout -- proxy/src/services/lunar-engine/streams/validation/policies.yaml 2>/dev/null
 echo "== ./check $id --tier $tier against the patched worktree:"
 cd /verif && VERIF_REPO=$wt ./check $id --tier $tier 2>&1 | grep -E "^(VIOLATION|INCONCL|C[0-9]+ |---|KNOWN)" | cut -c1-420 | head -8
-rm -rf /verif/replays/$id
+rm -rf /verif/.build/replays-alt/$id
